@@ -8,8 +8,9 @@ open FV FV.Drv
 
 def handle (line : String) : String :=
   match splitReq line with
-  | some ("F", op, args) => (netlistOp (α := Float) Float.sqrt 1e-12 op args).getD "bad-op"
-  | some ("Q", op, args) => (netlistOp (α := Rat) ratSqrt (mkRat 1 (10 ^ 12)) op args).getD "bad-op"
+  | some ("F", op, args) => (netlistOp (α := Float) Float.sqrt 1e-12 floatOfLit op args).getD "bad-op"
+  | some ("Q", op, args) => (netlistOp (α := Rat) ratSqrt (mkRat 1 (10 ^ 12)) ratOfLit op args).getD "bad-op"
+  | some ("T", op, args) => (textOp op args).getD "bad-op"
   | _ => "bad-op"
 
 def main : IO Unit := mainLoop handle
